@@ -153,7 +153,7 @@ func (c *RetryClient) publish(ctx context.Context, cli *BaseClient, message *Mes
 			default:
 			}
 			if retryErr, ok := err.(ErrorWithRetry); ok {
-				c.retryQueue = append(c.retryQueue, retryErr.Retry)
+				c.appendRetry(retryErr.Retry)
 				c.newRetryByError = true
 			}
 		}
@@ -192,7 +192,7 @@ func (c *RetryClient) subscribe(ctx context.Context, retry bool, cli *BaseClient
 			default:
 			}
 			if retryErr, ok := err.(ErrorWithRetry); ok {
-				c.retryQueue = append(c.retryQueue, retryErr.Retry)
+				c.appendRetry(retryErr.Retry)
 				c.newRetryByError = true
 			}
 		}
@@ -222,7 +222,7 @@ func (c *RetryClient) unsubscribe(ctx context.Context, cli *BaseClient, topics .
 			default:
 			}
 			if retryErr, ok := err.(ErrorWithRetry); ok {
-				c.retryQueue = append(c.retryQueue, retryErr.Retry)
+				c.appendRetry(retryErr.Retry)
 				c.newRetryByError = true
 			}
 		}
@@ -358,6 +358,16 @@ func (c *RetryClient) SetClient(ctx context.Context, cli *BaseClient) {
 	}()
 }
 
+// appendRetry queues the retry handle of an interrupted request.
+// The response timeout applies to the retransmission as well.
+func (c *RetryClient) appendRetry(retry retryFn) {
+	c.retryQueue = append(c.retryQueue, func(ctx context.Context, cli *BaseClient) error {
+		ctx2, cancel := c.requestContext(ctx)
+		defer cancel()
+		return retry(ctx2, cli)
+	})
+}
+
 func (c *RetryClient) requestContext(ctx context.Context) (context.Context, func()) {
 	if c.ResponseTimeout == 0 {
 		return ctx, func() {}
@@ -452,8 +462,10 @@ func (c *RetryClient) Retry(ctx context.Context) {
 
 			err := retry(ctx, cli)
 			if retryErr, ok := err.(ErrorWithRetry); ok {
-				c.retryQueue = append(c.retryQueue, retryErr.Retry)
+				c.onError(err)
+				c.appendRetry(retryErr.Retry)
 				c.retryQueue = append(c.retryQueue, oldRetryQueue[i+1:]...)
+				c.newRetryByError = true
 				break
 			}
 		}
